@@ -14,7 +14,7 @@ claimed = {
    "check accepts iff an explicit defect vanishes; wrong value / point / commitment corollaries; every mutated claim is decided by implementation and model and must agree; "
    "trait-level runs perturb every position of batches of all schemes (must-refuse)."),
  "C03": ("Lean proof per attack class + differential correspondence",
-   "Exact defects for the catalogue's attacks (other polynomial, other point, component replacement, shape) for every scheme; reductions for algebraic forgers (extraction polynomial with the trapdoor as root: KZG10, Marlin, Sonic, multilinear PST, PST13) and special soundness of Hyrax's dot-product argument; what remains assumed is only the hardness of finding the trapdoor / a discrete-log relation. "
+   "Exact defects for the catalogue's attacks (other polynomial, other point, component replacement, shape) for every scheme; reductions for algebraic forgers (extraction polynomial with the trapdoor as root: KZG10, Marlin, Sonic, multilinear PST, PST13, streaming KZG; for the inner-product argument, single/batched/hiding/any statement list: acceptance is one linear relation between the generators, and the zero relation forces the claim unless a round or hiding challenge hits a root fixed before it was drawn) and special soundness of Hyrax's dot-product argument; what remains assumed is only the hardness of finding the trapdoor / a discrete-log relation. "
    "Trait-level runs apply proof-list shape mutations to all schemes."),
  "C05": ("Lean proof (batch defect = randomizer-weighted sum) + differential correspondence",
    "batch accepts iff sum r_i*Delta_i = 0; all-true accepted for every randomizer list; single false claim rejected; at most ONE value of a randomizer accepts a batch with a false claim however errors were planted; trait-default batch_check = conjunction of group checks (generic model, ToyPC correspondence); implementation batch decision == AND of individual decisions == model with replayed randomizers."),
@@ -31,9 +31,9 @@ claimed = {
  "C18": ("Lean proof (any reduction tree = sequential fold; index-preserving map/unzip; disjoint for_each) + generated parallel-site inventory (T2) + digest comparison across thread counts and feature sets",
    "parReduce over any split tree equals foldl for associative operators with identity; the translator regenerates the list of every cfg_iter!/rayon site and RNG-under-parallel site from /repo on each run and `decide` checks them against the allow-list the theorems cover; serialized outputs of all schemes are hashed in child processes under RAYON_NUM_THREADS in {1,2,3,8,16} and in a build without the parallel feature. Partial: what rayon does at run time is outside the model."),
  "C12": ("Lean proof (codec combinators preserve round-trip/size/prefix-failure; schema agreement => struct codec Good) + serializer schemas regenerated from source (T1) + real round-trips",
-   "codec library with round-trip, size and prefix-failure preserved by seq/vec/option/map/btreemap; roundtrip_of_schema_agree instantiated by `decide` on the field lists the translator extracts from the hand-written CanonicalSerialize/Deserialize/Valid impls on every run; every artefact of every scheme is round-tripped (compress x validate), sizes, all proper prefixes, decisions with deserialized artefacts, byte layout = model order. Partial: primitive point/field encodings and the derive macro are trusted."),
+   "codec library with round-trip, size and prefix-failure preserved by seq/vec/option/map/btreemap; roundtrip_of_schema_agree instantiated by `decide` on the field lists the translator extracts from the hand-written CanonicalSerialize/Deserialize/Valid impls on every run (an impl T1 cannot read falls back, per type, to the schema of the pinned tree and is tied by the byte-layout correspondence); every artefact of every scheme is round-tripped (compress x validate), sizes, all proper prefixes, decisions with deserialized artefacts, byte layout = model order. Partial: primitive point/field encodings and the derive macro are trusted."),
  "C04": ("Lean proof (admission refusals, bounded completeness, exact mislabel condition) + boundary / mutation correspondence",
-   "commit/open refuse a bound that is not enforced, below the degree or above the maximum; honest use with any admissible bound is accepted (C01 theorem with bounds); a commitment accepted under d' is accepted under d iff h*xi'*v*(shift(d')-shift(d)) = 0; dropped/added shifted parts abort; boundary generator and relabel/drop/swap mutations on trapdoor keys decided by implementation and model."),
+   "commit/open refuse a bound that is not enforced, below the degree or above the maximum; honest use with any admissible bound is accepted (C01 theorem with bounds); a commitment accepted under d' is accepted under d iff h*xi'*v*(shift(d')-shift(d)) = 0; dropped/added shifted parts abort; degree-bound soundness against algebraic forgers (Marlin, Sonic, IPA: a polynomial exceeding the bound is accepted only for few evaluation points / one challenge ratio / a revealed trapdoor or discrete-log relation); boundary generator and relabel/drop/swap mutations on trapdoor keys decided by implementation and model."),
  "C09": ("Lean proof (trim of trapdoor-made parameters yields exactly the stated sub-keys) + real-setup correspondence",
    "trim_wf: prefix powers, gamma powers, shifted window, shift elements for sort(dedup(bounds)), truthful reports, interoperable verifier core, out-of-range refused; real setup: trapdoor recovered by RNG replay and verified on every element plus pairing identities; transparent generators valid, distinct, deterministic, prefix-stable."),
  "C06": ("Lean proof (a combination of honest commitments is an honest commitment of the combined polynomial; value split; bound policy) + perturbation correspondence on all schemes",
@@ -41,7 +41,7 @@ claimed = {
  "C11": ("Lean proof (lock-step over any history by induction; exact displaced-proof condition) + LogSponge event comparison on histories",
    "prover and verifier consume the same challenges and leave the same remainder after every prefix of any operation history, and every check accepts; a proof verified under another challenge is accepted iff h*g*(xi'-xi)*(p(beta)-p(z)) = 0; harness: histories of open/batch_open/open_combinations on one pre-seeded logging sponge, event lists and end states compared after every prefix, perturbed pre-states and displaced proofs must be refused (all schemes)."),
  "C14": ("Lean proof (space = time outputs for every coefficient list; verify iff; fold iterators enumerate the foldings for every length) + exhaustive iterator correspondence",
-   "18 theorems: Space.open = Time.open, commit, multi-point quotient/remainder, verify/verify_multi_points completeness and exact acceptance, FoldedPolynomialTree/Stream = naive fold for all lengths, commit_folding/open_folding offsets; harness: time vs space vs model for degrees 0..256, 1..8 points, 1..8 polynomials, six buffer sizes, both verifier keys; all lengths 1..130 x depths 0..7."),
+   "27 theorems: algebraic-forger reductions for verify and verify_multi_points (any claimed table, any proof element over the key), Space.open = Time.open, commit, multi-point quotient/remainder, verify/verify_multi_points completeness and exact acceptance, FoldedPolynomialTree/Stream = naive fold for all lengths, commit_folding/open_folding offsets; harness: time vs space vs model for degrees 0..256, 1..8 points, 1..8 polynomials, six buffer sizes, both verifier keys; all lengths 1..130 x depths 0..7."),
  "C15": ("Lean proof (divideAtPoint exact for every sparse polynomial; Combinations iterator sound and complete for all inputs; setup enumerates exactly the C(n+D,D) monomials for all n, D; PST13 completeness) + real-setup correspondence",
    "19 theorems incl. combinations_complete, setupTerms_complete (all n, D: no duplicates, exactly the monomials of degree <= D, C(n+D,D) of them; order additionally kernel-decided on the 6x6 grid), pst13_complete(_list), pst13_end_to_end, trim keeps exactly degree <= s. Harness: Combinations hook vs model, real setup on the grid (key set = all exponent vectors, every element = m(beta)*g, pairing relations), trapdoor-mode commit/open/check with mutations."),
  "C19": ("Lean proof (shape theorems of the prover models, batch proof count, linear-code dimension inequalities) + measured serialized sizes against each scheme's law",
